@@ -67,7 +67,12 @@ def make_targets(lab):
             rid = getattr(lab, "ctor_resource", None)
             if rid is not None:
                 lab.ctor_resource = None
-                lab.current_context.track_resource(lab.resources[rid])
+                if getattr(lab, "ctor_own", False):
+                    # the session object owns what it acquired: nobody else holds a reference to it
+                    self.res = Resource(lab, rid)
+                    lab.current_context.track_resource(self.res)
+                else:
+                    lab.current_context.track_resource(lab.resources[rid])
 
         def touch(self):
             for i, (c, r) in enumerate(lab.session_refs):
@@ -194,6 +199,7 @@ def run_scenarios(scens, servertype, timeout, seed):
                         call(by, "target", "mark", [1], ser, 9)
                         sc.quiesce()
                     lab.ctor_resource = 3
+                    lab.ctor_own = scen_no % 2 == 1
                     call(victim, "sess", "touch", [], ser, seq)
                     seq += 1
                     sc.quiesce()
